@@ -18,7 +18,10 @@ Events (per job a sequential process, like the engine's steps; processes interle
 Lifecycle the engine can emit (callers of notify_status in workflow/step.py and recovery/failure_manager.py):
     FIREABLE->RUNNING|CANCELLED|FAILED|RECOVERY ; RUNNING->COMPLETED|FAILED|CANCELLED|RECOVERY ;
     FAILED->RECOVERY ; RECOVERY->ROLLBACK ; COMPLETED|FAILED|CANCELLED->ROLLBACK (someone else's recovery) ;
-    ROLLBACK->schedule again ; any status may be notified twice.
+    ROLLBACK->schedule again ; any status may be notified twice (FIREABLE included), one after the other or --
+    ["N", j, "COMPLETED*2"] -- as two calls in flight at the same time (asyncio.gather), which race for the
+    scheduler lock when another task (a schedule() in the middle of _process_target, another job's release)
+    holds it across an await.
 """
 from __future__ import annotations
 
@@ -30,9 +33,11 @@ from vf.common import digest
 
 LIFECYCLE = {
     "new": {"S": "FIREABLE"},
-    "FIREABLE": {"RUNNING": "RUNNING", "CANCELLED": "CANCELLED", "FAILED": "FAILED", "RECOVERY": "RECOVERY"},
+    "FIREABLE": {"RUNNING": "RUNNING", "CANCELLED": "CANCELLED", "FAILED": "FAILED", "RECOVERY": "RECOVERY",
+                 "FIREABLE": "FIREABLE"},
+    # "X*2": the same notification issued twice CONCURRENTLY (both calls in flight at once)
     "RUNNING": {"COMPLETED": "COMPLETED", "FAILED": "FAILED", "CANCELLED": "CANCELLED", "RECOVERY": "RECOVERY",
-                "RUNNING": "RUNNING"},
+                "RUNNING": "RUNNING", "COMPLETED*2": "COMPLETED", "FAILED*2": "FAILED"},
     "COMPLETED": {"COMPLETED": "COMPLETED", "ROLLBACK": "ROLLBACK"},
     "FAILED": {"FAILED": "FAILED", "ROLLBACK": "ROLLBACK", "RECOVERY": "RECOVERY"},
     "CANCELLED": {"CANCELLED": "CANCELLED", "ROLLBACK": "ROLLBACK"},
@@ -414,12 +419,27 @@ class Run:
         if lifecycle_only and status not in LIFECYCLE[cur]:
             self.skipped += 1
             return
+        copies = 1
+        if "*" in status:
+            status, n = status.split("*")
+            copies = int(n)
         if status == "RUNNING" and cur == "FIREABLE":
             self.populate(j)
-        self.trace.append(("call", "N", j, status))
+        self.trace.append(("call", "N", j, status) if copies == 1 else ("call", "N", j, status, f"x{copies}"))
         self.in_notify[j] = status
         try:
-            await self.sch.notify_status(name, Status[status])
+            if copies == 1:
+                await self.sch.notify_status(name, Status[status])
+            else:
+                self.stats["concurrent_duplicates"] = self.stats.get("concurrent_duplicates", 0) + 1
+                res = await asyncio.gather(*(asyncio.create_task(self.sch.notify_status(name, Status[status]))
+                                             for _ in range(copies)), return_exceptions=True)
+                for r in res:
+                    if isinstance(r, asyncio.CancelledError):
+                        raise r
+                for r in res:
+                    if isinstance(r, Exception):
+                        raise r
         except asyncio.CancelledError:
             raise
         except Exception as e:
@@ -588,7 +608,7 @@ def enumerate_histories(njobs, max_len, dups=True, min_len=1):
             return
         for j in range(min(used + 1, njobs)):
             for a, ns in LIFECYCLE[states[j]].items():
-                if not dups and ns == states[j]:
+                if not dups and (ns == states[j] or "*" in a):
                     continue
                 s2 = list(states)
                 s2[j] = ns
@@ -766,7 +786,7 @@ def gen_events(rng, njobs, nev, dup_p=0.15):
         for a in acts:
             if a == "S":
                 w.append(6)
-            elif opts[a] == states[j]:
+            elif opts[a] == states[j] or "*" in a:
                 w.append(10 * dup_p)
             elif a in ("RUNNING", "COMPLETED"):
                 w.append(4)
@@ -891,6 +911,8 @@ def drive(sh, observer_factory, classes, reps=2, exhaustive=True, replay_case=No
         sh.count("quiescent_points", run.stats["quiescent_points"])
         sh.count("grants", run.stats["granted"])
         sh.count("releases", run.stats["released"])
+        if run.stats.get("concurrent_duplicates"):
+            sh.count("concurrent_duplicate_notifications", run.stats["concurrent_duplicates"])
         if run.stuck_notifies:
             sh.count("runs_with_notify_status_stuck_at_quiescence")
         if getattr(run, "abandoned", 0):
